@@ -177,7 +177,7 @@ func (app *App) blockBeginner() blockBeginner {
 			panic(err)
 		}
 
-		feeOpt, err := app.Context.govern.GetFeeOption()
+		feeOpt, err := app.Context.govern.WithState(app.Context.deliver).GetFeeOption()
 		if err != nil {
 			app.logger.Error("failed to get feeOption", err)
 		}
